@@ -256,6 +256,27 @@ def _once(case, acc, tree, labels):
         except Exception as exc:  # noqa: BLE001 - the exception class is the compared outcome
             return ("raised", type(exc).__name__)
 
+    # a callback that raises StopIteration (next() on an exhausted iterator inside it): findall fails the way PreOrderIter fails
+    def stopper():
+        calls = [0]
+
+        def pred(node):
+            calls[0] += 1
+            if calls[0] == 2:
+                raise StopIteration()
+            return id(node) not in hide_ids
+
+        return pred
+
+    for which in ("filter_", "stop"):
+        try:
+            want = ("ok", labels.labels(tuple(anytree.PreOrderIter(start, maxlevel=maxlevel, **{which: stopper()}))))
+        except Exception as exc:  # noqa: BLE001
+            want = ("raised", type(exc).__name__)
+        for mod in (search, cachedsearch):
+            got = attempt(mod.findall, **{which: stopper()})
+            if got != want:
+                raise Violation("findall-vs-preorderiter", "with a %s that raises StopIteration on its second call PreOrderIter gives %r, %s.findall %r" % (which, want, mod.__name__, got))
     for name_ in ("findall", "find"):
         for which in ("filter_", "stop"):
             plain = attempt(getattr(search, name_), **{which: flaky()})
